@@ -36,7 +36,9 @@ func runC12(ctx *Ctx) {
 	ruleServerSlotRelease(ctx, "C12-R4")
 	ruleRecvLinear(ctx, "C12-R5", func(n string) bool { return strings.HasPrefix(n, "server.") })
 	ruleServerShutdown(ctx, "C12-R6")
+	ruleQueueReady(ctx, "C12-R5b")
 	r := ctx.Rep
+	r.Floor("C12-R5b", 1)
 	r.Floor("C12-R1", 30)
 	r.Floor("C12-R1c", 2)
 	r.Floor("C12-R1g", 50)
